@@ -3,6 +3,8 @@ package main
 // Forward symbolic execution of go/ssa between cut points.
 
 import (
+	"crypto/sha256"
+	"encoding/hex"
 	"fmt"
 	"go/constant"
 	"go/token"
@@ -269,6 +271,10 @@ func (r *FnRun) freshVal(st *State, t types.Type, hint string) Val {
 		for i := 0; i < s.NumFields(); i++ {
 			v.Fs = append(v.Fs, r.freshVal(st, s.Field(i).Type(), hint+"."+s.Field(i).Name()))
 		}
+		for _, gf := range r.W.ghostFieldsOf(t) {
+			k, _ := sortKind(gf.Sort)
+			v.Fs = append(v.Fs, Val{K: k, S: r.fresh(hint+"."+gf.Name, smtSort(gf.Sort))})
+		}
 		return v
 	case KTuple:
 		tu := t.Underlying().(*types.Tuple)
@@ -447,6 +453,20 @@ func (r *FnRun) load1(st *State, p string, t types.Type, hint string) Val {
 		for i := 0; i < s.NumFields(); i++ {
 			v.Fs = append(v.Fs, r.load(st, sx("fld", p, fmt.Sprint(i)), s.Field(i).Type(), hint+"."+s.Field(i).Name()))
 		}
+		// ghost fields of the type are part of the value
+		for _, gf := range r.W.ghostFieldsOf(t) {
+			cell := sx("fld", p, fmt.Sprint(gf.ID))
+			switch gf.Sort {
+			case "Int":
+				v.Fs = append(v.Fs, intVal(r.bind(st, sx("select", st.heap["I"], cell), gf.Name, "Int"), nil))
+			case "Bool":
+				v.Fs = append(v.Fs, boolVal(r.bind(st, sx("select", st.heap["B"], cell), gf.Name, "Bool")))
+			case "Ref":
+				v.Fs = append(v.Fs, refVal(r.bind(st, sx("select", st.heap["R"], cell), gf.Name, "Ref"), nil))
+			case "BSeq":
+				v.Fs = append(v.Fs, seqVal(r.bind(st, sx("select", st.heap["S"], cell), gf.Name, "BSeq")))
+			}
+		}
 		return v
 	}
 	return unitVal()
@@ -497,8 +517,21 @@ func (r *FnRun) store(st *State, p string, v Val) {
 		r.setHeap(st, "I", sx("store", st.heap["I"], sx("fld", p, "0"), v.Tag))
 		r.setHeap(st, "R", sx("store", st.heap["R"], sx("fld", p, "1"), v.Pay))
 	case KStruct:
+		nf := len(v.Fs)
+		if s, ok := v.T.Underlying().(*types.Struct); ok && v.T != nil {
+			nf = s.NumFields()
+		}
 		for i, f := range v.Fs {
-			r.store(st, sx("fld", p, fmt.Sprint(i)), f)
+			if i < nf {
+				r.store(st, sx("fld", p, fmt.Sprint(i)), f)
+			}
+		}
+		if v.T != nil {
+			for k, gf := range r.W.ghostFieldsOf(v.T) {
+				if nf+k < len(v.Fs) {
+					r.store(st, sx("fld", p, fmt.Sprint(gf.ID)), v.Fs[nf+k])
+				}
+			}
 		}
 	}
 }
@@ -637,30 +670,33 @@ func (r *FnRun) constVal(c *ssa.Const) Val {
 	return zeroVal(t)
 }
 
-// string literals become named constants with their length (and bytes for
-// short strings) asserted.
+// string literals become world-level named constants (name derived from the
+// contents), so that code, contracts, spec functions and axioms agree on them.
 func (r *FnRun) strLit(s string) string {
+	return r.W.strLit(s)
+}
+
+func (w *World) strLit(s string) string {
 	if s == "" {
 		return "bempty"
 	}
-	key := "str!" + s
-	if n, ok := r.inputs[key]; ok {
+	if w.lits == nil {
+		w.lits = map[string][]string{}
+		w.litByText = map[string]string{}
+	}
+	if n, ok := w.litByText[s]; ok {
 		return n
 	}
-	name := r.fresh("lit_"+trunc(s, 12), "BSeq")
-	var ax []string
-	ax = append(ax, fmt.Sprintf("(assert (= (blen %s) %d))", name, len(s)))
-	if len(s) <= 40 {
+	h := sha256.Sum256([]byte(s))
+	name := "lit!" + sanitize(trunc(s, 12)) + "!" + hex.EncodeToString(h[:4])
+	ax := []string{fmt.Sprintf("(declare-const %s BSeq)", name), fmt.Sprintf("(assert (= (blen %s) %d))", name, len(s))}
+	if len(s) <= 48 {
 		for i := 0; i < len(s); i++ {
 			ax = append(ax, fmt.Sprintf("(assert (= (bat %s %d) %d))", name, i, s[i]))
 		}
 	}
-	if r.litAxioms == nil {
-		r.litAxioms = map[string][]string{}
-	}
-	r.litAxioms[name] = ax
-	r.litNames()[s] = name
-	r.inputs[key] = name
+	w.lits[name] = ax
+	w.litByText[s] = name
 	return name
 }
 
